@@ -207,3 +207,104 @@ Section Round.
     exists i1, i2. split; [exact H1|]. split; [exact H2|]. lia.
   Qed.
 End Round.
+
+(* ================= C06 end to end: a change of the channel set traces back to a correct node's definitions cache ================= *)
+Lemma honest_removes_unexpected codec_ok prev expected c :
+  In c (fst (honest_votes codec_ok prev expected)) -> expected !! c = None.
+Proof.
+  unfold honest_votes. destruct (bool_decide (o_stage prev = Retired)); [intros []|].
+  destruct (verify_defs codec_ok expected); [|intros []]. cbn [fst]. intros Hc.
+  apply in_firstn' in Hc. apply filter_In in Hc. destruct Hc as [_ Hc]. apply bool_decide_eq_true in Hc. exact Hc.
+Qed.
+
+Lemma plugin_observation_votes codec_ok cf seq prev_bytes now cache_att should_retire expected vals fails ro :
+  plugin_observation codec_ok cf seq prev_bytes now cache_att should_retire expected vals fails = Ok (Some ro) ->
+  (forall c, In c (ro_removes ro) -> expected !! c = None) /\ ro_updates ro ⊆ expected.
+Proof.
+  unfold plugin_observation. intros H.
+  destruct (seq <? 1); [discriminate|]. destruct (seq =? 1); [discriminate|].
+  destruct (decode_outcome (c_pver cf) prev_bytes) as [prev| |]; try discriminate.
+  destruct (now <? 0); [discriminate|].
+  destruct (bool_decide (o_stage prev = Retired)).
+  { inversion H; subst. cbn [ro_removes ro_updates]. split; [intros c []|apply map_empty_subseteq]. }
+  destruct (verify_defs codec_ok (o_defs prev)); cbn [negb] in H; [|discriminate].
+  destruct (if c_has_pred cf && bool_decide (o_stage prev = Staging) then cache_att else Ok []) as [att| |]; try discriminate.
+  destruct should_retire as [retire| |]; try discriminate.
+  pose proof (honest_removes_unexpected codec_ok prev expected) as Hrm.
+  pose proof (honest_updates_subset codec_ok prev expected) as Hup.
+  destruct (honest_votes codec_ok prev expected) as [rm up]. cbn [fst snd] in *.
+  destruct (bool_decide (o_defs prev = ∅)); [inversion H; subst; cbn [ro_removes ro_updates]; split; assumption|].
+  destruct fails; [discriminate|]. inversion H; subst. cbn [ro_removes ro_updates]. split; assumption.
+Qed.
+
+Section Round06.
+  Context (h : Z -> chandef -> list Z) (check : list Z -> option (gmap Z Z)) (codec_ok : chandef -> bool).
+  Context (cf : cfg) (seq : Z) (prev_bytes : list Z).
+  Local Notation tagged := (tagged check codec_ok cf seq prev_bytes).
+  Local Notation lsenders_ok := (lsenders_ok codec_ok cf seq prev_bytes).
+
+  (* what every correct node decodes from a correct node's bytes, votes included *)
+  Lemma tagged_correct_votes ss ob : bok prev_bytes -> lsenders_ok ss -> In (Some ob, true) (tagged ss) ->
+    exists i rms ups vals, In (LCorrect i rms ups vals) ss /\
+      (forall c, In c (ob_removes ob) -> oi_expected i !! c = None) /\ ob_updates ob ⊆ oi_expected i.
+  Proof.
+    intros Hb Hok Hin. unfold OutcomeEndToEnd.tagged in Hin. apply elem_of_list_In, elem_of_list_omap in Hin.
+    destruct Hin as (s & Hs & Ht). apply elem_of_list_In in Hs. unfold tagged1 in Ht.
+    destruct s as [i rms ups vals|b]; cbn [lsent l_correct] in Ht.
+    - destruct (observe codec_ok cf seq prev_bytes i) as [[ro|]| |] eqn:Eo; try discriminate. cbn [option_map] in Ht.
+      destruct (Hok i rms ups vals Hs) as (Hwf & Hperm). destruct (Hperm ro Eo) as (Prm & Pup & Pval & Hsm).
+      unfold observe in Eo.
+      destruct (plugin_observation_wf _ _ _ _ _ _ _ _ _ _ _ Eo Hb Hwf) as (Hobs & Hnd & _ & _).
+      destruct (plugin_observation_votes _ _ _ _ _ _ _ _ _ _ _ Eo) as (Hrm & Hup).
+      unfold obs_of_bytes in Ht. rewrite (observation_roundtrip rms ups vals ro Hobs Prm Pup Pval Hsm) in Ht.
+      rewrite has_dup_NoDup in Ht by (apply (Permutation.Permutation_NoDup (Permutation.Permutation_sym Prm)), Hnd).
+      inversion Ht; subst ob. exists i, rms, ups, vals. split; [exact Hs|].
+      cbn [obs_of_raw ob_removes ob_updates ro_removes ro_updates]. split; [|exact Hup].
+      intros c Hc. apply Hrm. exact (Permutation.Permutation_in _ Prm Hc).
+    - cbn [option_map] in Ht. inversion Ht.
+  Qed.
+
+  (* more than f votes with at most f faulty senders: one of the voters is a correct node *)
+  Lemma votes_need_correct (P : observation -> bool) (taos : list (option observation * bool)) rr obs f :
+    accept_observations (c_has_pred cf) (map fst taos) = Ok (rr, obs) ->
+    (length (List.filter (fun p => negb (snd p)) taos) <= f)%nat -> (f < length (List.filter P obs))%nat ->
+    exists ob, In (Some ob, true) taos /\ P ob = true.
+  Proof.
+    intros Ha Hf Hv.
+    destruct (existsb (fun p => match p with (Some ob, true) => P ob | _ => false end) taos) eqn:Ex.
+    - apply existsb_exists in Ex. destruct Ex as ([[ob|] [|]] & Hin & HP); try discriminate. eauto.
+    - exfalso. unfold accept_observations in Ha. apply accept_tagged_spec in Ha. simpl in Ha. subst obs.
+      assert (Hle : (length (List.filter P (map fst (accept_tagged false taos))) <= f)%nat).
+      { etransitivity; [apply votes_le_faulty|etransitivity; [apply accept_tagged_faulty|exact Hf]].
+        intros ob Hob. pose proof (accept_tagged_sub false taos (ob, true) Hob) as Hin. cbn [fst snd] in Hin.
+        destruct (P ob) eqn:EP; [|reflexivity]. exfalso.
+        assert (Hex : existsb (fun p => match p with (Some ob, true) => P ob | _ => false end) taos = true)
+          by (apply existsb_exists; exists (Some ob, true); split; [exact Hin|exact EP]).
+        congruence. }
+      lia.
+  Qed.
+
+  Theorem llo_def_change_traces_to_correct_cache ss prev next c :
+    bok prev_bytes -> lsenders_ok ss -> 1 < seq ->
+    outcome_step h cf seq prev (map fst (tagged ss)) = Ok next ->
+    (length (List.filter (fun p => negb (snd p)) (tagged ss)) <= c_f cf)%nat ->
+    o_defs next !! c <> o_defs prev !! c ->
+    exists i, (exists rms ups vals, In (LCorrect i rms ups vals) ss) /\
+              ((o_defs next !! c = None /\ oi_expected i !! c = None) \/
+               (exists d, o_defs next !! c = Some d /\ oi_expected i !! c = Some d)).
+  Proof.
+    intros Hb Hok Hseq Hstep Hf Hne.
+    destruct (def_change_needs_votes h cf seq prev (map fst (tagged ss)) next c Hseq Hstep Hne)
+      as (rr & obs & Ha & _ & _ & [[Hn Hv]|(d & Hd & Hv)]).
+    - unfold remove_votes in Hv.
+      destruct (votes_need_correct (fun ob => bool_decide (c ∈ ob_removes ob)) (tagged ss) rr obs (c_f cf) Ha Hf Hv) as (ob & Hob & HP).
+      apply bool_decide_eq_true in HP. apply elem_of_list_In in HP.
+      destruct (tagged_correct_votes ss ob Hb Hok Hob) as (i & rms & ups & vals & Hs & Hrm & _).
+      exists i. split; [eauto|]. left. split; [exact Hn|exact (Hrm c HP)].
+    - unfold update_votes in Hv.
+      destruct (votes_need_correct (fun ob => bool_decide (ob_updates ob !! c = Some d)) (tagged ss) rr obs (c_f cf) Ha Hf Hv) as (ob & Hob & HP).
+      apply bool_decide_eq_true in HP.
+      destruct (tagged_correct_votes ss ob Hb Hok Hob) as (i & rms & ups & vals & Hs & _ & Hup).
+      exists i. split; [eauto|]. right. exists d. split; [exact Hd|]. eapply lookup_weaken; [exact HP|exact Hup].
+  Qed.
+End Round06.
